@@ -5,6 +5,7 @@ using namespace alg;
 namespace {
 const double K = 64;
 
+bool same_bits_su(const SU_vector& x, const SU_vector& y) { if (x.Dim() != y.Dim()) return false; for (unsigned i = 0; i < x.Size(); i++) if (!(x[i] == y[i])) return false; return true; }
 double gen_t(Rng& r, int& tcls) {
   tcls = r.pick(7);
   switch (tcls) {
@@ -98,6 +99,15 @@ void run_C03(vh::Ctx& c) {
       double mag = 2.0 * d * d * ma * maxabs(b) * (1 + W * std::fabs(t));
       c.worst("scalarproduct.drift_over_epsmag", mag > 0 ? std::fabs(sp0 - sp1) / (EPS * mag) : 0);
       if (!(std::fabs(sp0 - sp1) <= K * EPS * mag)) c.violation(vh::fmt("C03:evolve:d%d:scalar-product-not-preserved", d), vh::fmt("before %.17g after %.17g", sp0, sp1));
+    }
+    // evolving a vector in place (the result stored back into the evolved vector), both forms
+    {
+      SU_vector X1(A), X2(A);
+      X1 = X1.Evolve(H, t);
+      X2 = X2.Evolve(buf);
+      c.eval(2); c.count("inplace_forms", 2);
+      if (!same_bits_su(X1, E)) c.violation(vh::fmt("C03:evolve:d%d:in-place-differs", d), "X = X.Evolve(H,t) differs from Y = X.Evolve(H,t)");
+      if (!same_bits_su(X2, F)) c.violation(vh::fmt("C03:twostep:d%d:in-place-differs", d), "X = X.Evolve(table) differs from Y = X.Evolve(table)");
     }
     free(buf);
     // group law
